@@ -90,6 +90,10 @@ func (p *c19Prop) Run(ci interface{}) interface{} {
 	opts := BrokerOpts{KeepAliveForce: c.Force, KeepAlivePeriod: c.Period}
 	if c.Kind == "conn" {
 		opts.ConnectTimeout = c.CT
+	} else {
+		// a short connect timeout: once the connection is established it must play no role any more
+		// (keep-alive 0 has to DISABLE the timer, not leave the connect deadline armed)
+		opts.ConnectTimeout = 1
 	}
 	b, err := NewBroker(opts)
 	if err != nil {
